@@ -66,7 +66,7 @@ def families(tier, seed):
     fams.append(("state", [{"sys": t} for t in systems]))
     fams.append(("povm", [{"sys": t, "m": m} for t in systems for m in ((2, 3, 4) if thorough else (2, 3))
                           if not (DIM[t] >= 6 and m == 4)]))
-    fams.append(("povm_multi", [{"m": list(m)} for m in ((2, 2), (2, 3), (3, 2))]))
+    fams.append(("povm_multi", [{"m": list(m)} for m in ((2, 2), (2, 3), (3, 2), (2, 3, 2), (2, 2, 3), (3, 2, 2), (2, 3, 4))]))
     hs_cases, choi_cases, var_cases = [], [], []
     for t in systems:
         n = DIM[t] ** 2
@@ -100,11 +100,14 @@ def families(tier, seed):
     if thorough:
         cache.append({"sys": "Q3", "depth": 64})
     fams.append(("cache", cache))
+    fams.append(("basis_sequence", [{"d": 2}, {"d": 3}]))
+    fams.append(("layout", [{"sys": t} for t in ("Q1", "Q3", "Q2")]))
     return fams
 
 
 def execute(family, params, seed):
-    fn = {"state": L.ex_state, "povm": L.ex_povm, "povm_multi": L.ex_povm_multi, "gate_hs": GT.ex_gate_hs,
+    from mc.props import _c02_extra as X
+    fn = {"basis_sequence": X.ex_basis_sequence, "layout": X.ex_layout, "state": L.ex_state, "povm": L.ex_povm, "povm_multi": L.ex_povm_multi, "gate_hs": GT.ex_gate_hs,
           "gate_choi": GT.ex_gate_choi, "gate_var": GT.ex_gate_var, "mprocess": GT.ex_mprocess, "kraus": NL.ex_kraus,
           "truncate": NL.ex_truncate, "truncate_through": NL.ex_truncate_through, "cache": NL.ex_cache}[family]
     return fn(params, seed)
